@@ -24,7 +24,12 @@ Record obs := mkObs {
   o_marker_at_return : bool; (* the marker existed when Launch returned *)
   o_alive : bool;            (* /proc/<pid>/stat: the daemon is running *)
   o_reparented : bool;       (* its parent is not the caller *)
-  o_launcher_gone : bool;    (* no child of the caller is left *)
+  o_launcher_gone : bool;    (* no child of the caller is left (zombies count) *)
+  o_done_at_return : bool;   (* the marker the daemon writes immediately before calling Done() existed when Launch
+                                returned: Launch did not return before Done() was entered (the signal is sent inside
+                                Done(), so this is the observable that cannot give a false alarm) *)
+  o_right_handler : bool;    (* the returned pid runs the handler registered under the name given to Launch, and no
+                                other Launch of the group returned the same pid *)
   o_survived : bool          (* ~300 ms after Launch returned the daemon is still running and has got past its
                                 late step (a write to its stderr in some variants): "keeps running after Launch
                                 returns". The daemon's stderr is outside Model/Daemon.v: judged on the Go side only,
@@ -32,7 +37,8 @@ Record obs := mkObs {
 }.
 
 Definition spec_ok (o : obs) : bool :=
-  oclass_eqb (o_class o) OOk && o_pid_matches o && o_marker_at_return o && o_alive o && o_reparented o && o_launcher_gone o && o_survived o.
+  oclass_eqb (o_class o) OOk && o_pid_matches o && o_marker_at_return o && o_alive o && o_reparented o && o_launcher_gone o
+  && o_done_at_return o && o_right_handler o && o_survived o.
 
 Definition class_of (s : state) : oclass :=
   match result s with
